@@ -1685,6 +1685,53 @@ impl Context {
                 .push((Arc::new(Value::None), Instruction::PushStateOffset(offset)));
         }
     }
+    /// State bookkeeping of branching constructs (`if`, `match`): every arm owns its own
+    /// state cells, laid out one after the other in arm order, and every path advances
+    /// the state cursor by the size of all arms, so that the code after the merge (and the
+    /// final PopStateOffset) sees the same cursor whichever arm ran.
+    ///
+    /// Call before the paths split: no offset may be pending then. Returns the push_sum of
+    /// the enclosing code, to be handed to `finish_branch_arms`.
+    fn begin_branch_arms(&mut self) -> u64 {
+        self.consume_and_insert_pushoffset();
+        self.get_ctxdata().push_sum
+    }
+    /// Call at the start of every arm (after its first block was created): the arm keeps
+    /// its own account of the offsets it pushes.
+    fn begin_branch_arm(&mut self) {
+        self.get_ctxdata().next_state_offset = None;
+        self.get_ctxdata().push_sum = 0;
+    }
+    /// Call at the end of every arm; returns the index of the arm's last block.
+    fn end_branch_arm(&mut self) -> usize {
+        self.consume_and_insert_pushoffset();
+        self.get_ctxdata().current_bb
+    }
+    /// `arms`: (first block, last block, state size) of every arm in layout order. Arm i
+    /// first skips the cells of the arms before it and finally skips those after it.
+    fn finish_branch_arms(&mut self, outer_push_sum: u64, arms: &[(usize, usize, u64)]) {
+        let total = arms.iter().map(|(_, _, size)| size).sum::<u64>();
+        let mut before = 0;
+        for (first_bidx, last_bidx, size) in arms {
+            let after = total - before - size;
+            if after > 0 {
+                let block = self.get_current_fn().body.get_mut(*last_bidx).unwrap();
+                block
+                    .0
+                    .push((Arc::new(Value::None), Instruction::PushStateOffset(after)));
+            }
+            if before > 0 {
+                let block = self.get_current_fn().body.get_mut(*first_bidx).unwrap();
+                block.0.insert(
+                    0,
+                    (Arc::new(Value::None), Instruction::PushStateOffset(before)),
+                );
+            }
+            before += size;
+        }
+        self.get_ctxdata().next_state_offset = None;
+        self.get_ctxdata().push_sum = outer_push_sum + total;
+    }
     fn emit_fncall(
         &mut self,
         idx: u64,
@@ -2964,14 +3011,9 @@ impl Context {
             }
             Expr::If(cond, then, else_) => {
                 let (c, _, state_c) = self.eval_expr(*cond);
-                // State bookkeeping of the branches: every arm owns its own state cells,
-                // laid out one after the other (condition, then-arm, else-arm), and every
-                // path advances the state cursor by the size of both arms, so that the
-                // code after the merge (and the final PopStateOffset) sees the same cursor
-                // whichever arm ran. No offset may be pending when the paths split, and
-                // each arm keeps its own account of the offsets it pushes.
-                self.consume_and_insert_pushoffset();
-                let outer_push_sum = self.get_ctxdata().push_sum;
+                // Every arm owns its own state cells (see `begin_branch_arms`); the layout
+                // lists the cells of the condition, of the then-arm and of the else-arm.
+                let outer_push_sum = self.begin_branch_arms();
                 let cond_bidx = self.get_ctxdata().current_bb;
 
                 // This is just a placeholder. At this point, the locations of
@@ -2980,38 +3022,24 @@ impl Context {
                 let _ = self.push_inst(Instruction::JmpIf(c, 0, 0, 0));
                 //insert then block
                 let then_bidx = cond_bidx + 1;
-                self.get_ctxdata().push_sum = 0;
+                self.begin_branch_arm();
                 let (t, _, state_t) = self.eval_block(Some(*then));
-                self.consume_and_insert_pushoffset();
-                let then_last_bidx = self.get_ctxdata().current_bb;
+                let then_last_bidx = self.end_branch_arm();
                 //jmp to ret is inserted in bytecodegen
                 //insert else block
                 let else_bidx = self.get_ctxdata().current_bb + 1;
-                self.get_ctxdata().push_sum = 0;
+                self.begin_branch_arm();
                 let (e, _, state_e) = self.eval_block(*else_);
-                self.consume_and_insert_pushoffset();
+                let else_last_bidx = self.end_branch_arm();
                 let then_size = state_t.iter().map(|s| s.total_size()).sum::<u64>();
                 let else_size = state_e.iter().map(|s| s.total_size()).sum::<u64>();
-                if else_size > 0 {
-                    // the then-arm finally skips the cells of the else-arm
-                    let thenb = self.get_current_fn().body.get_mut(then_last_bidx).unwrap();
-                    thenb.0.push((
-                        Arc::new(Value::None),
-                        Instruction::PushStateOffset(else_size),
-                    ));
-                }
-                if then_size > 0 {
-                    // the else-arm first skips the cells of the then-arm
-                    let elseb = self.get_current_fn().body.get_mut(else_bidx).unwrap();
-                    elseb.0.insert(
-                        0,
-                        (
-                            Arc::new(Value::None),
-                            Instruction::PushStateOffset(then_size),
-                        ),
-                    );
-                }
-                self.get_ctxdata().push_sum = outer_push_sum + then_size + else_size;
+                self.finish_branch_arms(
+                    outer_push_sum,
+                    &[
+                        (then_bidx, then_last_bidx, then_size),
+                        (else_bidx, else_last_bidx, else_size),
+                    ],
+                );
                 let branch_state = [state_t, state_e].concat();
                 //insert return block
                 self.add_new_basicblock();
@@ -3444,6 +3472,10 @@ impl Context {
             .iter()
             .find(|arm| matches!(&arm.pattern, MatchPattern::Wildcard));
 
+        // Every arm owns its own state cells (see `begin_branch_arms`)
+        let outer_push_sum = self.begin_branch_arms();
+        let mut arm_extents: Vec<(usize, usize, u64)> = vec![];
+
         // Record current block where Switch will be placed
         let switch_bidx = self.get_ctxdata().current_bb;
 
@@ -3462,10 +3494,8 @@ impl Context {
                 self.add_new_basicblock();
                 let block_idx = self.get_ctxdata().current_bb as u64;
 
-                // Reset state offset at the start of each arm
-                // This ensures each arm starts with a clean state context
-                self.get_ctxdata().next_state_offset = None;
-                self.get_ctxdata().push_sum = 0;
+                // Each arm starts with a clean state context
+                self.begin_branch_arm();
 
                 // Extract value from the tagged union if there's a binding pattern and payload type
                 if let MatchPattern::Constructor(_, Some(inner_pattern)) = &arm.pattern
@@ -3483,6 +3513,9 @@ impl Context {
                 }
 
                 let (result_val, _, arm_states) = self.eval_expr(arm.body);
+                let last_bidx = self.end_branch_arm();
+                let arm_size = arm_states.iter().map(|s| s.total_size()).sum::<u64>();
+                arm_extents.push((block_idx as usize, last_bidx, arm_size));
                 ((*tag, block_idx), result_val, arm_states)
             })
             .fold(
@@ -3504,11 +3537,11 @@ impl Context {
             self.add_new_basicblock();
             let block_idx = self.get_ctxdata().current_bb as u64;
 
-            // Reset state offset for default arm
-            self.get_ctxdata().next_state_offset = None;
-            self.get_ctxdata().push_sum = 0;
-
+            self.begin_branch_arm();
             let (result_val, _, arm_states) = self.eval_expr(arm.body);
+            let last_bidx = self.end_branch_arm();
+            let arm_size = arm_states.iter().map(|s| s.total_size()).sum::<u64>();
+            arm_extents.push((block_idx as usize, last_bidx, arm_size));
             all_arm_states.push(arm_states);
             case_results.push(result_val);
             Some(block_idx)
@@ -3517,47 +3550,8 @@ impl Context {
             None
         };
 
-        // Calculate maximum state size across all arms
-        let arm_state_sizes: Vec<u64> = all_arm_states
-            .iter()
-            .map(|states| states.iter().map(|s| s.total_size()).sum::<u64>())
-            .collect();
-        let max_state_size = arm_state_sizes.iter().copied().max().unwrap_or(0);
-
-        // Insert PushStateOffset for arms with smaller state sizes
-        // This ensures all arms have the same state offset when merging
-        for (i, ((_tag, block_idx), state_size)) in
-            case_blocks.iter().zip(arm_state_sizes.iter()).enumerate()
-        {
-            if *state_size < max_state_size {
-                let offset = max_state_size - state_size;
-                let block = self
-                    .get_current_fn()
-                    .body
-                    .get_mut(*block_idx as usize)
-                    .unwrap();
-                // Insert PushStateOffset at the end of the block (before result)
-                block
-                    .0
-                    .push((Arc::new(Value::None), Instruction::PushStateOffset(offset)));
-            }
-        }
-
-        // Handle default block state adjustment if it exists
-        if let Some(default_idx) = default_block_idx {
-            let default_state_size = arm_state_sizes.last().copied().unwrap_or(0);
-            if default_state_size < max_state_size {
-                let offset = max_state_size - default_state_size;
-                let block = self
-                    .get_current_fn()
-                    .body
-                    .get_mut(default_idx as usize)
-                    .unwrap();
-                block
-                    .0
-                    .push((Arc::new(Value::None), Instruction::PushStateOffset(offset)));
-            }
-        }
+        // Arms are laid out one after the other; every path advances the cursor past all of them
+        self.finish_branch_arms(outer_push_sum, &arm_extents);
 
         // Generate merge block with PhiSwitch
         self.add_new_basicblock();
@@ -3588,9 +3582,7 @@ impl Context {
             _ => panic!("expected Switch instruction"),
         }
 
-        // Use the largest arm's state as the result state
-        // This represents the maximum state size across all branches
-        // But we need to collect all states from all arms for the function's state signature
+        // The state layout lists the cells of all arms, in arm order
         for arm_states in all_arm_states {
             states.extend(arm_states);
         }
@@ -3654,6 +3646,10 @@ impl Context {
             .iter()
             .find(|arm| matches!(&arm.pattern, MatchPattern::Wildcard));
 
+        // Every arm owns its own state cells (see `begin_branch_arms`)
+        let outer_push_sum = self.begin_branch_arms();
+        let mut arm_extents: Vec<(usize, usize, u64)> = vec![];
+
         // Record current block where Switch will be placed
         let switch_bidx = self.get_ctxdata().current_bb;
 
@@ -3671,7 +3667,11 @@ impl Context {
             .map(|(arm, lit_val)| {
                 self.add_new_basicblock();
                 let block_idx = self.get_ctxdata().current_bb as u64;
+                self.begin_branch_arm();
                 let (result_val, _, arm_states) = self.eval_expr(arm.body);
+                let last_bidx = self.end_branch_arm();
+                let arm_size = arm_states.iter().map(|s| s.total_size()).sum::<u64>();
+                arm_extents.push((block_idx as usize, last_bidx, arm_size));
                 ((*lit_val, block_idx), result_val, arm_states)
             })
             .fold(
@@ -3692,7 +3692,11 @@ impl Context {
             // Wildcard pattern - just evaluate the body
             self.add_new_basicblock();
             let block_idx = self.get_ctxdata().current_bb as u64;
+            self.begin_branch_arm();
             let (result_val, _, arm_states) = self.eval_expr(arm.body);
+            let last_bidx = self.end_branch_arm();
+            let arm_size = arm_states.iter().map(|s| s.total_size()).sum::<u64>();
+            arm_extents.push((block_idx as usize, last_bidx, arm_size));
             all_states.extend(arm_states);
             case_results.push(result_val);
             Some(block_idx)
@@ -3700,6 +3704,7 @@ impl Context {
             // Exhaustive match - no default block needed
             None
         };
+        self.finish_branch_arms(outer_push_sum, &arm_extents);
 
         // Generate merge block with PhiSwitch
         self.add_new_basicblock();
